@@ -60,7 +60,7 @@ class _None(object):
 NONE = _None()
 
 
-def fold_numeric(expr, subst, _depth=0):
+def fold_numeric(expr, subst, _depth=0, dyadic=False):
   """Value of `expr` once every atom of `subst` with a constant value is replaced by it: only literals, module constants,
   + - * / // % ** & | ^ << >>, abs min max int float, comparisons, and / or / not (with Python's operand-returning semantics),
   conditional expressions, membership in literal containers and calls of PURE_FUNCS are evaluated - arithmetic on constants,
@@ -93,7 +93,10 @@ def fold_numeric(expr, subst, _depth=0):
       if isinstance(n.op, (ast.FloorDiv, ast.Mod, ast.Div)) and b == 0:
         raise ValueError
       if isinstance(n.op, ast.Div):
-        return Fraction(a) / Fraction(b)
+        q = Fraction(a) / Fraction(b)
+        if dyadic and q.denominator & (q.denominator - 1):
+          raise ValueError      # not exactly representable in binary floating point: the rational value may differ from the computed one
+        return q
       if isinstance(n.op, (ast.BitAnd, ast.BitOr, ast.BitXor, ast.LShift, ast.RShift)) and not (isinstance(a, int) and isinstance(b, int)):
         raise ValueError
       if isinstance(n.op, (ast.LShift, ast.Pow)) and (not isinstance(b, int) or b < 0 or b > 64):
@@ -149,10 +152,19 @@ def fold_numeric(expr, subst, _depth=0):
     if isinstance(n, ast.Call) and dotted(n.func) in ('abs', 'min', 'max', 'int', 'float', 'bool') and n.args and not n.keywords:
       vals = [ev(a, env, depth) for a in n.args]
       if dotted(n.func) in ('int', 'float', 'bool'):
-        if len(vals) != 1 or (dotted(n.func) == 'int' and Fraction(vals[0]).denominator != 1):
+        if len(vals) != 1:
           raise ValueError
+        if dotted(n.func) == 'int' and Fraction(vals[0]).denominator != 1:
+          if not dyadic:
+            raise ValueError
+          return int(Fraction(vals[0]))      # truncation toward zero, exact on an exactly representable value
         return bool(vals[0]) if dotted(n.func) == 'bool' else vals[0]
       return {'abs': lambda v: abs(v[0]), 'min': min, 'max': max}[dotted(n.func)](vals)
+    if isinstance(n, ast.Call) and dyadic and len(n.args) == 1 and not n.keywords and \
+        dotted(n.func) in ('math.ceil', 'math.floor', 'np.ceil', 'np.floor', 'numpy.ceil', 'numpy.floor'):
+      import math
+      v = Fraction(ev(n.args[0], env, depth))
+      return math.ceil(v) if dotted(n.func).endswith('ceil') else math.floor(v)
     if isinstance(n, ast.Call) and not n.keywords and depth < 4:
       f = PURE_FUNCS.get((dotted(n.func) or '').split('.')[-1])
       if f is not None and len(f.args.args) == len(n.args):
